@@ -98,6 +98,27 @@ def rep_caller(x: FLOAT[3], y: FLOAT[3]) -> FLOAT[3]:
 @script(default_opset=opset17)
 def rep_default_opset(x: FLOAT[3], y: FLOAT[3]) -> FLOAT[3]:
     return x * y + 1.0
+
+
+# a call chain across three custom domains in which the outer function uses no standard operator itself: everything the
+# MODEL has to import beyond the outer function's own imports comes from the callees
+from onnxscript.values import Opset as _Opset
+_inner_dom, _middle_dom, _outer_dom = _Opset("vf.rep.inner", 1), _Opset("vf.rep.middle", 1), _Opset("vf.rep.outer", 1)
+
+
+@script(_inner_dom, default_opset=op)
+def rep_inner(a: FLOAT[3]) -> FLOAT[3]:
+    return op.Neg(a)
+
+
+@script(_middle_dom, default_opset=op)
+def rep_middle(a: FLOAT[3]) -> FLOAT[3]:
+    return rep_inner(a)
+
+
+@script(_outer_dom, default_opset=op)
+def rep_outer(x: FLOAT[3], y: FLOAT[3]) -> FLOAT[3]:
+    return rep_middle(x)
 '''
 
 
@@ -113,7 +134,7 @@ def run_repeat(spec):
     for i, p in enumerate(spec["scripts"]):
         src, sig = gen.script_source(p, f"rep_fn_{i}")
         todo.append((src, [f"rep_fn_{i}"], f"repeat:{sig}:{p['gseed']}"))
-    todo.append((EXTRA_SRC, ["rep_caller", "rep_default_opset"], "repeat:extra"))
+    todo.append((EXTRA_SRC, ["rep_caller", "rep_default_opset", "rep_outer"], "repeat:extra"))
     for src, names, sig in todo:
         try:
             mod = _load(src, "rep")
